@@ -1684,3 +1684,27 @@ Example ordered_unsorted_head_next :
 Proof. vm_compute. reflexivity. Qed.
 Lemma oc_stop_idem : forall st, oc_stop (oc_stop st) = oc_stop st.
 Proof. intro st. unfold oc_stop. destruct (oc_once st) eqn:E; simpl; [now rewrite E | reflexivity]. Qed.
+
+(* refutations in "exists" form (witnesses confirmed on the Go code by the driver) *)
+Theorem merge_next_after_stop_refuted :
+  exists a b ops n,
+    nexts merge_next n (merge_stop (snd (run merge_next merge_head merge_stop ops (merge_init a b)))) <> pad n [].
+Proof.
+  exists [Item 1; Item 2], [Item 3], [ONext], 1%nat. vm_compute. discriminate.
+Qed.
+(* detection of unsorted input is not complete *)
+Theorem ordered_detection_incomplete :
+  exists xss, ~ Forall (ksorted (fun x => x)) xss
+    /\ nexts (oc_next (fun x => x)) 4 (oc_init (map (map Item) xss)) = [ROk 1; ROk 2; ROk 1; RDone].
+Proof.
+  exists [[1; 2]; [2; 1]]. split.
+  - intro H. inversion H as [|? ? _ H2]; subst. inversion H2 as [|? ? H3 _]; subst.
+    inversion H3 as [|? ? _ H4]; subst. inversion H4 as [|? ? H5 _]; subst. unfold le_key in H5. lia.
+  - vm_compute. reflexivity.
+Qed.
+(* on unsorted input Head and the following Next may disagree *)
+Theorem ordered_head_next_unsorted_refuted :
+  exists xss ops, fst (run (oc_next (fun x => x / 8)) (oc_head (fun x => x / 8)) oc_stop ops
+                            (oc_init (map (map Item) xss)))
+                  = [ROk 17; ROk 9; RErr ENotAscending].
+Proof. exists [[17; 17; 9]], [ONext; OHead; ONext]. vm_compute. reflexivity. Qed.
